@@ -119,7 +119,7 @@ func Run(c *engine.Ctx) {
 	w := apworld.NewWorld(c.Seed)
 	kt := keytab.New()
 	if err := kt.Unmarshal(w.Keytab); err != nil {
-		engine.Fatal("model keytab does not load: %v", err)
+		engine.FailValid("keytab.Unmarshal(model keytab)", err)
 	}
 	vclock.Virtual(apworld.T0)
 	sets := settingsSpace()
